@@ -67,6 +67,7 @@ NEEDS.update({
  'C03-4': ("C03","two `||` alternatives: the tag in one, the bounds met by the other (`>=1.0.0 || 2.0.0-beta.1` with 2.0.0-beta.2)",""),
  'C04-4': ("C04","max/min_satisfying with several satisfying prereleases of one triple in an unlucky list order","caught by C14 from the start; by C04 itself after adding the resolver entry points to its list sweep"),
  'C05-4': ("C05","serde Deserialize from a non-borrowing source (escape sequences in the JSON text, from_value, from_reader); feature `serde` only","caught by C05 (`serde` clause on inputs with a tab) from the start; the from_value / from_reader observation was added afterwards; the demo needs `--features serde`"),
+ 'C06-5': ("C06","a minuend with an exclusive release lower bound `>a` and a subtrahend that starts exactly at the `-0` floor of the next patch and ends strictly inside (BoundSet::new refuses `>X.Y.Z <X.Y.(Z+1)-0`, difference unwraps)","MISSED at first (no leaf set held both `X.Y.Z` and `X.Y.(Z+1)-0`); caught after adding the -0 floor of the next patch to the exotic and thorough leaf sets; C08 and C15 alarm as well"),
  'C06-4': ("C06","range bounds carrying build metadata in a two-sided difference (derived PartialEq compares build; unwrap on None)",""),
  'C07-4': ("C07","inclusive bounds meeting at one version whose build metadata differs (`>=1.2.3+build.5` with `<=1.2.3`)",""),
  'C08-4': ("C08","a remainder that contains only prereleases (`>1.0.0 \\ >=1.0.1`) or only 0.0.0 prereleases (`<1.0.0 \\ *`)",""),
